@@ -559,6 +559,27 @@ pub enum UvOutcome {
     Err(u8),
 }
 
+/// The slow-user pass (main.rs): while it is on, every scripted user step advances the thread's
+/// virtual clock by this many seconds and suspends at least once afterwards, so that code polling
+/// a deadline around the user step sees the time that passed.
+static SLOW_USER_SECS: std::sync::atomic::AtomicU64 = std::sync::atomic::AtomicU64::new(0);
+pub fn set_slow_user(secs: u64) {
+    SLOW_USER_SECS.store(secs, Ordering::SeqCst);
+    if secs == 0 {
+        std::env::remove_var("VERIF_SLOW_USER");
+    } else {
+        std::env::set_var("VERIF_SLOW_USER", secs.to_string());
+    }
+}
+pub fn slow_user_from_env() {
+    if let Some(s) = std::env::var("VERIF_SLOW_USER").ok().and_then(|s| s.parse().ok()) {
+        SLOW_USER_SECS.store(s, Ordering::SeqCst);
+    }
+}
+fn slow_user() -> u64 {
+    SLOW_USER_SECS.load(Ordering::Relaxed)
+}
+
 #[derive(Clone)]
 pub struct ScriptedUv {
     pub verification_cap: Option<bool>,
@@ -588,7 +609,11 @@ impl UserValidationMethod for ScriptedUv {
     async fn check_user<'a>(&self, credential: Option<&'a Passkey>, presence: bool, verification: bool) -> Result<UserCheck, Ctap2Error> {
         let cred = credential.map(|c| c.credential_id.to_vec());
         self.log.run_prompt_hook();
-        yield_n(self.yields).await;
+        let slow = slow_user();
+        if slow != 0 {
+            crate::core::clock::advance(slow);
+        }
+        yield_n(self.yields.max(usize::from(slow != 0))).await;
         let (r, logged) = match self.outcome {
             UvOutcome::Ok { presence: p, verification: v } => (Ok(UserCheck { presence: p, verification: v }), Ok((p, v))),
             UvOutcome::Err(b) => {
